@@ -20,10 +20,7 @@
 (***************************************************************************)
 EXTENDS Integers, Sequences, FiniteSets, TLC, Json
 
-CONSTANTS PkgSets,           \* allowed sets of Go packages (each contains "main")
-          ABs,               \* allowed values of "a imports b"
-          UMain, UA, UB,     \* allowed sets of bindings used by main / a / b
-          SMain, SA, SB,     \* allowed use sites of main / a / b
+CONSTANTS ShapeUniverse,     \* the set of program shapes to explore (AllShapes, QuickShapes, or a generated selection)
           KeepTrace          \* TRUE: record the event trace (for the binding); FALSE: only counters (all shapes)
 
 Bindings == {"math", "json", "vmod", "vmod2"}
@@ -32,14 +29,17 @@ ModOf == [math |-> "math", json |-> "json", vmod |-> "vmod", vmod2 |-> "vmod"]
 Mods == {"math", "json", "vmod"}
 RunOrder == <<"a", "b", "main">>                        \* main.main runs a's, then b's, then its own calls
 Sites == {"var", "init", "run"}
+GoPkgs == {"main", "a", "b"}
 
-UChoice(p) == CASE p = "main" -> UMain [] p = "a" -> UA [] p = "b" -> UB
-SChoice(p) == CASE p = "main" -> SMain [] p = "a" -> SA [] p = "b" -> SB
-
-Shapes == UNION { { [pkgs |-> ps, ab |-> ab, uses |-> u, site |-> s] :
-                       u \in {f \in [ps -> SUBSET Bindings] : \A p \in ps : f[p] \in UChoice(p)},
-                       s \in {f \in [ps -> Sites] : \A p \in ps : f[p] \in SChoice(p)} }
-                  : ps \in PkgSets, ab \in ABs }
+\* shapes over the given package sets / site choices (SiteOf: package -> allowed sites)
+ShapesOver(PkgSets, SiteOf) ==
+  UNION { { [pkgs |-> ps, ab |-> ab, uses |-> u, site |-> s] :
+              u \in [ps -> SUBSET Bindings],
+              s \in {f \in [ps -> Sites] : \A p \in ps : f[p] \in SiteOf[p]} }
+          : ps \in PkgSets, ab \in BOOLEAN }
+AllPkgSets == {{"main"}, {"main", "a"}, {"main", "a", "b"}}
+AllShapes   == ShapesOver(AllPkgSets, [p \in GoPkgs |-> Sites])
+QuickShapes == ShapesOver(AllPkgSets, [main |-> {"run"}, a |-> {"init"}, b |-> {"var"}])
 \* "a imports b" only means something when both exist; keep one representative otherwise
 WellFormed(sh) == (~({"a", "b"} \subseteq sh.pkgs)) => sh.ab = FALSE
 
@@ -53,7 +53,7 @@ Deps(n) == IF n \in Bindings THEN {} ELSE GoDeps(n) \cup shape.uses[n]
 Nodes == shape.pkgs \cup UNION {shape.uses[p] : p \in shape.pkgs}
 UsedMods == {ModOf[b] : b \in Nodes \cap Bindings}
 
-Init == /\ shape \in {sh \in Shapes : WellFormed(sh)}
+Init == /\ shape \in {sh \in ShapeUniverse : WellFormed(sh)}
         /\ inited = {} /\ loaded = {} /\ icount = [m \in Mods |-> 0]
         /\ trace = <<>> /\ phase = "init" /\ bad = FALSE
 
